@@ -137,7 +137,7 @@ func checkC14(c *core.Check) {
 	nOps, perPkg, fuzzN := 40, 20, 40000
 	nBodyDocs := 8
 	if thorough {
-		nOps, fuzzN = 200, 600000
+		nOps, fuzzN = 400, 3000000
 		nBodyDocs = 20
 	}
 	// operations: the wire universe (typed parameters, JSON / raw bodies), pre-flighted
